@@ -143,10 +143,22 @@ func rmHist(args []string) error {
 		if e == nil {
 			return fmt.Errorf("open: %s", pm)
 		}
-		e.Exec("CREATE TABLE rt(k int, v int);")
+		// every third window: the rows carry a string that the updates make longer or shorter, so that multi-row
+		// updates move rows to other slots and pages - and statements aborted half-way by a lock conflict have to
+		// move them back (the retried statement and every later one reach the rows through the index of k)
+		reloc := w%3 == 1 && !wide
 		init := [][]int{}
+		if reloc {
+			e.Exec("CREATE TABLE rt(k int, v int, p varchar(500));")
+		} else {
+			e.Exec("CREATE TABLE rt(k int, v int);")
+		}
 		for k := 0; k < nkeys; k++ {
-			e.Exec(fmt.Sprintf("INSERT INTO rt(k, v) VALUES (%d, %d);", k, k+1))
+			if reloc {
+				e.Exec(fmt.Sprintf("INSERT INTO rt(k, v, p) VALUES (%d, %d, '%s');", k, k+1, strings.Repeat("i", 20+13*(k%7))))
+			} else {
+				e.Exec(fmt.Sprintf("INSERT INTO rt(k, v) VALUES (%d, %d);", k, k+1))
+			}
 			init = append(init, []int{k, k + 1})
 		}
 		if w%2 == 0 {
@@ -176,7 +188,7 @@ func rmHist(args []string) error {
 			go func(ci int, seed int64) {
 				defer wg.Done()
 				r := rand.New(rand.NewSource(seed))
-				for i := 0; i < ncalls; i++ {
+				for i := 0; i < ncalls && atomic.LoadInt32(&stuck) == 0; i++ { // (one call that does not return ends the window)
 					rec := &callRec{c: ci*100000 + i}
 					a := r.Intn(nkeys)
 					b := a + r.Intn(nkeys-a)
@@ -198,6 +210,9 @@ func rmHist(args []string) error {
 						rec.k, rec.a, rec.b = "upd", a, b
 						rec.v = int(atomic.AddInt64(&ver, 1))
 						sql = fmt.Sprintf("UPDATE rt SET v = %d WHERE k >= %d AND k <= %d;", rec.v, a, b)
+						if reloc {
+							sql = fmt.Sprintf("UPDATE rt SET v = %d, p = '%s' WHERE k >= %d AND k <= %d;", rec.v, strings.Repeat("u", 5+r.Intn(400)), a, b)
+						}
 					default:
 						rec.k, rec.a, rec.b = "read", a, b
 						if withInserts {
@@ -238,13 +253,27 @@ func rmHist(args []string) error {
 		// final read closes the history
 		fin := &callRec{c: 99999999, k: "read", a: 0, b: 1000000}
 		fin.inv = atomic.AddInt64(&clock, 1)
-		ferr, frows := e.DB.ExecuteSQL("SELECT k, v FROM rt WHERE k >= 0 AND k <= 1000000;")
+		var ferr error
+		var frows [][]interface{}
+		fdone := make(chan struct{})
+		go func() {
+			ferr, frows = e.DB.ExecuteSQL("SELECT k, v FROM rt WHERE k >= 0 AND k <= 1000000;")
+			close(fdone)
+		}()
+		select {
+		case <-fdone:
+		case <-time.After(60 * time.Second):
+			atomic.StoreInt32(&stuck, 1)
+			ferr = fmt.Errorf("stuck")
+		}
 		fin.ret = atomic.AddInt64(&clock, 1)
 		if ptw != nil {
 			time.Sleep(20 * time.Millisecond) // let the Run loop finish the turn of the last delivery
 			samehada.VerifRM = nil
 		}
-		if ferr != nil {
+		if ferr != nil && ferr.Error() == "stuck" {
+			fin.res = "stuck"
+		} else if ferr != nil {
 			fin.res = "err:" + ferr.Error()
 		} else {
 			fin.res, fin.rows = "ok", ifRows(frows)
